@@ -137,13 +137,13 @@ theorem harmless_not_crash {cmds : List Cmd} (h : ∀ c ∈ cmds, harmless c = t
     have := h _ hm
     simp [harmless] at this
 
-theorem harmless_lastExit {cmds : List Cmd} (h : ∀ c ∈ cmds, harmless c = true) : lastExit cmds = none := by
+theorem harmless_lastExitOf {cmds : List Cmd} (h : ∀ c ∈ cmds, harmless c = true) : lastExitOf cmds = none := by
   have : cmds.filter Cmd.isExit = [] := by
     apply List.filter_eq_nil_iff.mpr
     intro c hc
     have := h c hc
     cases c <;> simp_all [harmless, Cmd.isExit]
-  simp [lastExit, this]
+  simp [lastExitOf, this]
 
 /-! ### the runner on harmless commands and inert ticks -/
 
@@ -248,25 +248,25 @@ theorem step_stuck (cfg : Cfg) (pol : Policy) (w : Nat) (hacc : Unaccepted cfg w
 
 /-! ### replay, round trip and restart of a good state -/
 
-theorem replayFrom_append (cfg : Cfg) (pol : Policy) (now : Int) :
+theorem tmReplayFrom_append (cfg : Cfg) (pol : Policy) (now : Int) :
     ∀ (l1 l2 : List Tick) (acc : State × Option Cmd),
-      replayFrom cfg pol now (l1 ++ l2) acc = (replayFrom cfg pol now l1 acc).bind (replayFrom cfg pol now l2)
-  | [], l2, acc => by simp [replayFrom]
+      tmReplayFrom cfg pol now (l1 ++ l2) acc = (tmReplayFrom cfg pol now l1 acc).bind (tmReplayFrom cfg pol now l2)
+  | [], l2, acc => by simp [tmReplayFrom]
   | t :: l1, l2, acc => by
-    simp only [List.cons_append, replayFrom]
+    simp only [List.cons_append, tmReplayFrom]
     split
     · simp
-    · exact replayFrom_append cfg pol now l1 l2 _
+    · exact tmReplayFrom_append cfg pol now l1 l2 _
 
-theorem replayFrom_inert (cfg : Cfg) (pol : Policy) (w : Nat) (hacc : Unaccepted cfg w) (now : Int) :
+theorem tmReplayFrom_inert (cfg : Cfg) (pol : Policy) (w : Nat) (hacc : Unaccepted cfg w) (now : Int) :
     ∀ (l : List Tick) (st : State) (ex : Option Cmd), Good cfg w st → (∀ t ∈ l, inert w t = true) →
-      replayFrom cfg pol now l (st, ex) = some (st, ex)
-  | [], st, ex, _, _ => by simp [replayFrom]
+      tmReplayFrom cfg pol now l (st, ex) = some (st, ex)
+  | [], st, ex, _, _ => by simp [tmReplayFrom]
   | t :: l, st, ex, hg, hl => by
     obtain ⟨hst, hcm⟩ := reduce_inert cfg pol w hacc st hg t (hl t (by simp)) now
-    simp only [replayFrom]
-    rw [if_neg (by rw [harmless_not_crash hcm]; simp), harmless_lastExit hcm, hst]
-    exact replayFrom_inert cfg pol w hacc now l st ex hg (fun x hx => hl x (by simp [hx]))
+    simp only [tmReplayFrom]
+    rw [if_neg (by rw [harmless_not_crash hcm]; simp), harmless_lastExitOf hcm, hst]
+    exact tmReplayFrom_inert cfg pol w hacc now l st ex hg (fun x hx => hl x (by simp [hx]))
 
 theorem roundtrip_good {cfg : Cfg} {w : Nat} {st : State} (hg : Good cfg w st) : Good cfg w (roundtrip cfg st) := by
   have hw : ∀ c ∈ cfg.steps, (roundtrip cfg st).workers c.name = deserStep (serStep (st.workers c.name)) := by
@@ -387,7 +387,7 @@ theorem good_sim {cfg : Cfg} {w : Nat} {a b : State} (h : Sim a b) (hg : Good cf
 /-- the persisted prefix replays (here: at clock 0), without raising and without an exit command,
 to a good state -/
 def replayGoodB (cfg : Cfg) (pol : Policy) (w : Nat) (base : List Tick) : Bool :=
-  match replayAt cfg pol base 0 with
+  match tmReplayAt cfg pol base 0 with
   | some (P, none) => goodB cfg w P
   | _ => false
 
@@ -402,11 +402,11 @@ structure StuckBase (c : SrvCfg) (pol : Policy) (w : Nat) (base : List Tick) : P
   replay0 : replayGoodB c.cfg pol w base = true
 
 theorem StuckBase.replay {c : SrvCfg} {pol : Policy} {w : Nat} {base : List Tick} (hb : StuckBase c pol w base)
-    (now : Int) : ∃ P, replayAt c.cfg pol base now = some (P, none) ∧ Good c.cfg w P := by
+    (now : Int) : ∃ P, tmReplayAt c.cfg pol base now = some (P, none) ∧ Good c.cfg w P := by
   have h0 := hb.replay0
-  have hs := replayAt_sim c.cfg hb.timeIndep base 0 now
+  have hs := tmReplayAt_sim c.cfg hb.timeIndep base 0 now
   unfold replayGoodB at h0
-  cases h1 : replayAt c.cfg pol base 0 with
+  cases h1 : tmReplayAt c.cfg pol base 0 with
   | none => simp [h1] at h0
   | some pe =>
     obtain ⟨P0, e0⟩ := pe
@@ -414,7 +414,7 @@ theorem StuckBase.replay {c : SrvCfg} {pol : Policy} {w : Nat} {base : List Tick
     | some x => simp [h1] at h0
     | none =>
       simp only [h1] at h0 hs
-      cases h2 : replayAt c.cfg pol base now with
+      cases h2 : tmReplayAt c.cfg pol base now with
       | none => simp [h2] at hs
       | some qe =>
         obtain ⟨Q, e⟩ := qe
@@ -431,8 +431,8 @@ def SAct.quietFor (w : Nat) : SAct → Bool
   | .send t => inert w t
   | _ => true
 
-theorem persist_inert {w : Nat} {t : Tick} (h : inert w t = true) : t.persist = t := by
-  cases t <;> simp_all [inert, Tick.persist]
+theorem stored_inert {w : Nat} {t : Tick} (h : inert w t = true) : t.stored = t := by
+  cases t <;> simp_all [inert, Tick.stored]
 
 theorem persisted_stuck {c : SrvCfg} {w : Nat} {base : List Tick} {s : Srv} (h : SrvStuck c w base s) :
     ∃ tail, s.persisted = base ++ tail ∧ ∀ t ∈ tail, inert w t = true := by
@@ -441,22 +441,22 @@ theorem persisted_stuck {c : SrvCfg} {w : Nat} {base : List Tick} {s : Srv} (h :
   cases hl : s.live with
   | none => exact ⟨tail, by simp [hs], ht⟩
   | some r =>
-    refine ⟨tail ++ r.log.map (fun p => p.1.persist), by simp [hs, List.append_assoc], ?_⟩
+    refine ⟨tail ++ r.log.map (fun p => p.1.stored), by simp [hs, List.append_assoc], ?_⟩
     intro t hm
     rcases List.mem_append.mp hm with hm | hm
     · exact ht t hm
     · obtain ⟨p, hp, rfl⟩ := List.mem_map.mp hm
       have hi := (h.live r hl).log p hp
-      rw [persist_inert hi]; exact hi
+      rw [stored_inert hi]; exact hi
 
 theorem reload_stuck {c : SrvCfg} {pol : Policy} {w : Nat} {base : List Tick} (hb : StuckBase c pol w base)
     (tail : List Tick) (ht : ∀ t ∈ tail, inert w t = true) (now : Int) :
     ∃ r, reload c pol (base ++ tail) now = .ok r none ∧ RunnerStuck c.cfg w r := by
   obtain ⟨P, hP, hg⟩ := hb.replay now
-  have hrep : replayAt c.cfg pol (base ++ tail) now = some (P, none) := by
-    unfold replayAt at hP ⊢
-    rw [replayFrom_append, hP]
-    exact replayFrom_inert c.cfg pol w hb.unaccepted now tail P none hg ht
+  have hrep : tmReplayAt c.cfg pol (base ++ tail) now = some (P, none) := by
+    unfold tmReplayAt at hP ⊢
+    rw [tmReplayFrom_append, hP]
+    exact tmReplayFrom_inert c.cfg pol w hb.unaccepted now tail P none hg ht
   have hg' := roundtrip_good hg
   refine ⟨Runner.init c.cfg (roundtrip c.cfg P) now none none, ?_, init_good now hg'⟩
   unfold reload
@@ -505,7 +505,7 @@ theorem srv_step_stuck (c : SrvCfg) (pol : Policy) (w : Nat) (base : List Tick) 
       simp at h2; subst h2; exact hr'
   | send t =>
     simp only [SAct.quietFor] at ha
-    have hne : (s.status != Status.running) = false := by simp [h.status]
+    have hne : (s.status != HStatus.running) = false := by simp [h.status]
     simp only [Srv.step, hne, Bool.false_eq_true, if_false]
     cases hext : t.isExternal with
     | false =>
@@ -547,7 +547,7 @@ theorem srv_step_stuck (c : SrvCfg) (pol : Policy) (w : Nat) (base : List Tick) 
     cases hl : s.live with
     | some r => simpa [hl] using h
     | none =>
-      have hne : (s.status != Status.running) = false := by simp [h.status]
+      have hne : (s.status != HStatus.running) = false := by simp [h.status]
       simp only [hne, Bool.false_or]
       split
       · exact h
